@@ -378,7 +378,12 @@ fn random_line(r: &mut Rng) -> String {
         _ => {}
     }
     s.push_str(r.pick(&verbs));
-    let np = r.below(5);
+    // "any number of parameters": mostly a few, now and then many (up to 40 middle parameters)
+    let np = match r.below(12) {
+        0 => 5 + r.below(12),
+        1 => 12 + r.below(29),
+        _ => r.below(5),
+    };
     for _ in 0..np {
         for _ in 0..1 + r.below(2) {
             s.push(' ');
